@@ -122,4 +122,251 @@ Proof.
   - rewrite !andb_false_r. exact Gen.
 Qed.
 
+Lemma clean_call_alt_d ctx f h same nested kws :
+  forallb clean (same tt) = true -> forallb clean (nested tt) = true ->
+  forallb (fun kv => clean (snd kv)) (kws tt) = true ->
+  clean (call_alt_d sp lb ctx f h same nested kws) = true.
+Proof.
+  intros Hs Hn Hk. unfold call_alt_d. destruct (depth_le0 ctx); [reflexivity|].
+  destruct h; apply clean_build_fncall; auto.
+Qed.
+
+Lemma clean_dict_part ctx last k x xp :
+  clean k = true -> clean x = true -> clean (xp tt) = true ->
+  clean (fst (dict_part sp lb ctx last k x xp)) = true.
+Proof.
+  intros Hk Hx Hp. unfold dict_part. cbn [fst].
+  pose proof (clean_uncomment k Hk) as Huk. pose proof (clean_uncomment x Hx) as Hux.
+  destruct (is_commented k) as [kc|], (is_commented x) as [vc|]; cl;
+    rewrite ?Huk, ?Hux, ?Hp, ?clean_commentdoc; destruct last; reflexivity.
+Qed.
+
+Lemma clean_dict_parts ctx : forall l,
+  forallb (fun t => clean (fst (fst t)) && clean (snd (fst t)) && clean (snd t tt)) l = true ->
+  forallb clean (fst (dict_parts sp lb ctx l)) = true.
+Proof.
+  induction l as [|[[k x] xp] tl IH]; intros H; [reflexivity|].
+  cbn [forallb fst snd] in H. apply andb_prop in H as [H1 H]. apply andb_prop in H1 as [H1 Hp].
+  apply andb_prop in H1 as [Hk Hx].
+  cbn [dict_parts]. pose proof (clean_dict_part ctx (match tl with [] => true | _ => false end) k x xp Hk Hx Hp) as HP.
+  destruct (dict_part sp lb ctx _ k x xp) as [part hc]. specialize (IH H).
+  destruct (dict_parts sp lb ctx tl) as [rest hc']. cbn [fst forallb] in *. now rewrite HP, IH.
+Qed.
+
+Lemma forallb_take {A} (f : A -> bool) n : forall l, forallb f l = true -> forallb f (take_z n l) = true.
+Proof.
+  intros l. revert n. induction l as [|x tl IH]; intros n H; cbn [take_z]; [reflexivity|].
+  cbn [forallb] in H. apply andb_prop in H as [Hx Ht]. destruct (n <=? 0)%Z; cbn [forallb]; [reflexivity|].
+  rewrite Hx. cbn [andb]. now apply IH.
+Qed.
+Lemma forallb_reorder {A} (f : A -> bool) l order : forallb f l = true -> forallb f (reorder l order) = true.
+Proof.
+  intros H. induction order as [|i tl IH]; [reflexivity|]. cbn [reorder].
+  destruct (nth_error l i) as [x|] eqn:E; [|exact IH]. cbn [forallb]. rewrite IH, andb_true_r.
+  apply nth_error_In in E. rewrite forallb_forall in H. auto.
+Qed.
+
+Lemma clean_seq_d ctx kind len sub tr els :
+  forallb clean (els tt) = true -> clean (seq_d sp lb ctx kind len sub tr els) = true.
+Proof.
+  intros He. unfold seq_d. cbv zeta.
+  assert (Hb : forall k, let '(lft, rgt) := match k with 0%nat => (LBRACKET, RBRACKET) | 1%nat => (LPAREN, RPAREN)
+                                            | _ => (LBRACE, RBRACE) end in clean lft = true /\ clean rgt = true).
+  { intros [|[|k]]; split; reflexivity. }
+  specialize (Hb kind). destruct (match kind with 0%nat => _ | 1%nat => _ | _ => _ end) as [lft rgt]. destruct Hb as [Hl Hr].
+  destruct len as [|n].
+  - destruct (negb (is_some sub) && Nat.ltb kind 2); [cl; now rewrite Hl, Hr|].
+    apply clean_call_alt_d; reflexivity.
+  - destruct (depth_is0 ctx).
+    + destruct (Nat.ltb kind 2).
+      * assert (HL : clean (Cat [lft; ELLIPSIS; rgt]) = true) by (cl; now rewrite Hl, Hr).
+        destruct (negb (is_some sub)); [exact HL|]. apply clean_build_fncall; cbn [forallb]; try reflexivity. now rewrite HL.
+      * apply clean_call_alt_d; reflexivity.
+    + set (els0 := match S n with 1%nat => els tt | _ => take_z (c_maxlen ctx) (els tt) end).
+      assert (H0 : forallb clean els0 = true) by (unfold els0; destruct n; [exact He|now apply forallb_take]).
+      set (tr' := if (c_maxlen ctx <? Z.of_nat (S n))%Z then _ else tr).
+      assert (HL : clean (let '(els1, dangle) := match tr' with
+                                                 | Some t => (els0 ++ [commentdoc sp lb t], false)
+                                                 | None => (els0, Nat.eqb kind 1 && Nat.eqb (S n) 1) end in
+                          sequence_of_docs sp lb ctx lft els1 rgt dangle (is_some tr')) = true).
+      { destruct tr' as [t|]; apply clean_sequence_of_docs; auto.
+        rewrite forallb_app, H0. cbn [forallb]. now rewrite clean_commentdoc. }
+      destruct (match tr' with Some t => _ | None => _ end) as [els1 dangle].
+      destruct (negb (is_some sub)); [exact HL|]. apply clean_build_fncall; cbn [forallb]; try reflexivity. now rewrite HL.
+Qed.
+
+Lemma clean_dict_d ctx sub tr so triples :
+  forallb (fun t => clean (fst (fst t)) && clean (snd (fst t)) && clean (snd t tt)) (triples tt) = true ->
+  clean (dict_d sp lb ctx sub tr so triples) = true.
+Proof.
+  intros Ht. unfold dict_d. cbv zeta. destruct (depth_is0 ctx).
+  - destruct (negb (is_some sub)); [reflexivity|]. apply clean_build_fncall; reflexivity.
+  - set (tr' := if (c_maxlen ctx <? _)%Z then _ else tr).
+    set (shown := take_z (c_maxlen ctx) (if c_sort ctx then reorder (triples tt) so else triples tt)).
+    assert (Hs : forallb (fun t => clean (fst (fst t)) && clean (snd (fst t)) && clean (snd t tt)) shown = true).
+    { unfold shown. apply forallb_take. destruct (c_sort ctx); [now apply forallb_reorder|exact Ht]. }
+    pose proof (clean_dict_parts ctx shown Hs) as HP. destruct (dict_parts sp lb ctx shown) as [parts0 hc0]. cbn [fst] in HP.
+    set (parts := match tr' with Some t => parts0 ++ [Cat [HardLine; commentdoc sp lb t]] | None => parts0 end).
+    assert (Hparts : forallb clean parts = true).
+    { unfold parts. destruct tr' as [t|]; [|exact HP]. rewrite forallb_app, HP. cl. now rewrite clean_commentdoc. }
+    assert (Hd : forall b : bool, clean (if b then AlwaysBreak (bracket ctx LBRACE (Cat parts) RBRACE)
+                                         else Group (bracket ctx LBRACE (Cat parts) RBRACE)) = true).
+    { intros b. assert (HB : clean (bracket ctx LBRACE (Cat parts) RBRACE) = true)
+        by (apply clean_bracket; try reflexivity; now rewrite clean_cat).
+      destruct b; cl; exact HB. }
+    destruct (negb (is_some sub)); [apply Hd|].
+    destruct parts; [apply clean_call_alt_d; reflexivity|].
+    apply clean_build_fncall; cbn [forallb]; try reflexivity. now rewrite Hd.
+Qed.
+
+Lemma clean_num_d ctx t base lit sub : clean (num_d sp lb ctx t base lit sub) = true.
+Proof.
+  unfold num_d. destruct (depth_is0 ctx); [apply clean_call_alt_d; reflexivity|].
+  destruct sub; [apply clean_build_fncall; reflexivity|reflexivity].
+Qed.
+
+Lemma clean_frozen_d ctx len sub lst : clean (lst tt) = true -> clean (frozen_d sp lb ctx len sub lst) = true.
+Proof.
+  intros H. unfold frozen_d. destruct len; apply clean_call_alt_d; cbn [forallb]; try reflexivity. now rewrite H.
+Qed.
+
+(** values without strings (special floats and paths print through the string printer) *)
+Fixpoint nostr (v : pyval) : Prop :=
+  match v with
+  | VStr _ | VBytes _ | VInf | VNegInf | VNan | VPath _ _ => False
+  | VList l | VTuple l | VSet l | VFrozenset l =>
+      (fix all (l : list pyval) : Prop := match l with [] => True | x :: tl => nostr x /\ all tl end) l
+  | VDict kvs _ =>
+      (fix all (l : list (pyval * pyval)) : Prop :=
+         match l with [] => True | (k, x) :: tl => nostr k /\ nostr x /\ all tl end) kvs
+  | VSub _ b => nostr b
+  | VCommented x _ | VTrailing x _ => nostr x
+  | VCall _ args kw =>
+      (fix all (l : list pyval) : Prop := match l with [] => True | x :: tl => nostr x /\ all tl end) args /\
+      (fix all (l : list (str * pyval)) : Prop := match l with [] => True | (_, x) :: tl => nostr x /\ all tl end) kw
+  | _ => True
+  end.
+
+Lemma nostr_list l :
+  (fix all (l : list pyval) : Prop := match l with [] => True | x :: tl => nostr x /\ all tl end) l ->
+  forall x, In x l -> nostr x.
+Proof. induction l as [|y tl IH]; intros H x Hx; [destruct Hx|]. destruct H, Hx; subst; auto. Qed.
+Lemma nostr_dict kvs :
+  (fix all (l : list (pyval * pyval)) : Prop :=
+     match l with [] => True | (k, x) :: tl => nostr k /\ nostr x /\ all tl end) kvs ->
+  forall k x, In (k, x) kvs -> nostr k /\ nostr x.
+Proof. induction kvs as [|[k0 x0] tl IH]; intros H k x Hx; [destruct Hx|]. destruct H as (?&?&?), Hx as [E|Hx]; [inv E; auto|auto]. Qed.
+Lemma nostr_kw (kw : list (str * pyval)) :
+  (fix all (l : list (str * pyval)) : Prop := match l with [] => True | (_, x) :: tl => nostr x /\ all tl end) kw ->
+  forall k x, In (k, x) kw -> nostr x.
+Proof. induction kw as [|[k0 x0] tl IH]; intros H k x Hx; [destruct Hx|]. destruct H, Hx as [E|Hx]; [inv E; auto|eauto]. Qed.
+
+Notation pretty_pv := (pretty_pv sp lb).
+
+Lemma clean_finish (cm : option str) d : clean d = true ->
+  clean (match truthy cm with Some c => Annot (AComment c) d | None => d end) = true.
+Proof. intros H. destruct (truthy cm); exact H. Qed.
+
+Lemma key_nostr ctx k : nostr k -> key_doc_ sp lb ctx k = pretty_pv k (nested_call ctx) None None.
+Proof.
+  intros H. destruct k; try reflexivity; try contradiction. cbn [nostr] in H.
+  destruct k; try reflexivity; contradiction.
+Qed.
+
+Lemma forallb_map_in {A} (f : A -> doc) l : (forall x, In x l -> clean (f x) = true) -> forallb clean (map f l) = true.
+Proof.
+  induction l as [|x tl IH]; intros H; [reflexivity|]. cbn [map forallb]. rewrite (H x (or_introl eq_refl)).
+  apply IH. intros y Hy. apply H. now right.
+Qed.
+
+Definition CleanV (v : pyval) : Prop := forall ctx cm tr, nostr v -> clean (pretty_pv v ctx cm tr) = true.
+
+Lemma clean_elems ctx l : (forall x, In x l -> nostr x /\ CleanV x) ->
+  forallb clean (match l with
+                 | [x] => [pretty_pv x (with_strategy (nested_call ctx) MPlain) None None]
+                 | _ => map (fun x => pretty_pv x (nested_hang ctx) None None) l
+                 end) = true.
+Proof.
+  intros H.
+  assert (G : forall c', forallb clean (map (fun x => pretty_pv x c' None None) l) = true).
+  { intros c'. apply forallb_map_in. intros x Hx. destruct (H x Hx) as [Hn Hc]. now apply Hc. }
+  destruct l as [|x [|y tl]]; apply G.
+Qed.
+
+Lemma clean_triples ctx kvs : (forall k x, In (k, x) kvs -> (nostr k /\ CleanV k) /\ (nostr x /\ CleanV x)) ->
+  forallb (fun t : doc * doc * (unit -> doc) => clean (fst (fst t)) && clean (snd (fst t)) && clean (snd t tt))
+    (map (fun '(k, x) => (key_doc_ sp lb ctx k,
+                          pretty_pv x (with_strategy (nested_call ctx) MIndented) None None,
+                          fun _ : unit => pretty_pv x (with_strategy (nested_call ctx) MPlain) None None)) kvs) = true.
+Proof.
+  induction kvs as [|[k x] tl IH]; intros H; [reflexivity|]. cbn [map forallb fst snd].
+  destruct (H k x (or_introl eq_refl)) as [[Hnk Hck] [Hnx Hcx]].
+  rewrite (key_nostr ctx k Hnk), (Hck _ None None Hnk), !(Hcx _ None None Hnx). cbn [andb].
+  apply IH. intros k' x' Hin. apply H. now right.
+Qed.
+
+Lemma clean_n : forall n v, (vsize v <= n)%nat -> CleanV v.
+Proof.
+  induction n as [|n IHn]; intros v Hn.
+  { destruct v; cbn in Hn; lia. }
+  destruct v as [z|b| | |r| | | |s|s|l|l|l|l|kvs so|w v|v c|v c|f args kwargs|w s|r];
+    intros ctx cm tr Hs; cbn [Printers.pretty_pv]; try contradiction; try apply clean_finish.
+  - apply clean_num_d.
+  - destruct b; reflexivity.
+  - reflexivity.
+  - reflexivity.
+  - apply clean_num_d.
+  - rewrite vsize_list in Hn. apply clean_seq_d. apply clean_elems. intros x Hx. split; [exact (nostr_list l Hs x Hx)|].
+    apply IHn. apply vsum_in in Hx. lia.
+  - rewrite vsize_tuple in Hn. apply clean_seq_d. apply clean_elems. intros x Hx. split; [exact (nostr_list l Hs x Hx)|].
+    apply IHn. apply vsum_in in Hx. lia.
+  - rewrite vsize_set in Hn. apply clean_seq_d. apply clean_elems. intros x Hx. split; [exact (nostr_list l Hs x Hx)|].
+    apply IHn. apply vsum_in in Hx. lia.
+  - rewrite vsize_frozenset in Hn. apply clean_frozen_d. apply clean_seq_d. apply clean_elems.
+    intros x Hx. split; [exact (nostr_list l Hs x Hx)|]. apply IHn. apply vsum_in in Hx. lia.
+  - (* dict *)
+    rewrite vsize_dict in Hn. apply clean_dict_d. apply (clean_triples ctx kvs).
+    intros k x Hin. destruct (nostr_dict kvs Hs k x Hin) as [Hk Hx]. apply kvsum_in in Hin.
+    repeat split; auto; apply IHn; lia.
+  - (* sub *)
+    cbn [nostr vsize] in Hs, Hn.
+    destruct v as [z|b| | |r| | | |s|s|l|l|l|l|kvs so|w' v'|v' c'|v' c'|f' args' kwargs'|w' s|r]; try reflexivity;
+      try contradiction.
+    + apply clean_num_d.
+    + apply clean_num_d.
+    + rewrite vsize_list in Hn. apply clean_seq_d. apply clean_elems. intros x Hx. split; [exact (nostr_list l Hs x Hx)|].
+      apply IHn. apply vsum_in in Hx. lia.
+    + rewrite vsize_tuple in Hn. apply clean_seq_d. apply clean_elems. intros x Hx. split; [exact (nostr_list l Hs x Hx)|].
+      apply IHn. apply vsum_in in Hx. lia.
+    + rewrite vsize_set in Hn. apply clean_seq_d. apply clean_elems. intros x Hx. split; [exact (nostr_list l Hs x Hx)|].
+      apply IHn. apply vsum_in in Hx. lia.
+    + rewrite vsize_frozenset in Hn. apply clean_frozen_d. apply clean_seq_d. apply clean_elems.
+      intros x Hx. split; [exact (nostr_list l Hs x Hx)|]. apply IHn. apply vsum_in in Hx. lia.
+    + rewrite vsize_dict in Hn. apply clean_dict_d. apply (clean_triples ctx kvs).
+      intros k x Hin. destruct (nostr_dict kvs Hs k x Hin) as [Hk Hx]. apply kvsum_in in Hin.
+      repeat split; auto; apply IHn; lia.
+  - (* commented *) cbn [vsize nostr] in *. apply IHn; [lia|exact Hs].
+  - (* trailing *) cbn [vsize nostr] in *. apply IHn; [lia|exact Hs].
+  - (* call *)
+    rewrite vsize_call in Hn. destruct Hs as [Ha Hk].
+    apply clean_call_alt_d.
+    + apply forallb_map_in. intros a Hin. apply IHn; [apply vsum_in in Hin; lia|exact (nostr_list args Ha a Hin)].
+    + apply forallb_map_in. intros a Hin. apply IHn; [apply vsum_in in Hin; lia|exact (nostr_list args Ha a Hin)].
+    + assert (IHk : forall k x, In (k, x) kwargs -> clean (pretty_pv x (nested_hang ctx) None None) = true).
+      { intros k x Hin. apply IHn; [apply kwsum_in in Hin; lia|exact (nostr_kw kwargs Hk k x Hin)]. }
+      clear Hn Hk Ha. induction kwargs as [|[k x] tl IHl]; [reflexivity|]. cbn [map forallb snd].
+      rewrite (IHk k x (or_introl eq_refl)). apply IHl. intros k' x' Hin. apply (IHk k'). now right.
+  - reflexivity.
+Qed.
+
+Theorem clean_pretty v ctx cm tr : nostr v -> clean (pretty_pv v ctx cm tr) = true.
+Proof. exact (clean_n (vsize v) v (le_n _) ctx cm tr). Qed.
+
+Theorem clean_top_doc v indent depth maxlen sort : nostr v -> clean (top_doc sp lb v indent depth maxlen sort) = true.
+Proof.
+  intros H. unfold top_doc. pose proof (clean_pretty v (mkCtx indent depth MPlain maxlen sort) None None H) as Hc.
+  destruct (is_commented _); [|exact Hc]. cl. now rewrite Hc, clean_commentdoc.
+Qed.
+
+
 End CD.
